@@ -48,19 +48,37 @@ Definition ctxw_write (o : wout) (b : list Z) : nat * werr :=
       (n', if (0 <? n') && (n' <? length b) then EPartial else EPlain)
   end.
 
-(* Encoder.Encode's write loop; [written] = bytes put on the wire by this Encode so far *)
+(* Encoder.Encode's write loop; [written] = bytes put on the wire by this Encode so far;
+   [alive]: None = the send context stays live, Some k = it is cancelled (by another goroutine)
+   while the k-th next Write is in progress: that Write still completes, every later Write of
+   this Encode returns (0, ctx.Err()) without reaching the stream (ctxWriteCloser.write's early
+   cancel check) and without consuming an index of the environment's oracle *)
 Fixpoint encode_bufs (orc : nat -> wout) (bufs : frame) (st : tstate) (written : nat)
-  : tstate * nat * werr :=
+  (alive : option nat) : tstate * nat * werr :=
   match bufs with
   | [] => (st, written, ENone)
   | b :: rest =>
-      let '(n, e) := ctxw_write (orc (nw st)) b in
-      let st' := mkT (wire st ++ firstn n b) (S (nw st)) (broken st) in
-      match e with
-      | ENone => encode_bufs orc rest st' (written + n)
-      | _ => (st', written + n, e)
+      match alive with
+      | Some 0 => (st, written, EPlain)
+      | _ =>
+        let '(n, e) := ctxw_write (orc (nw st)) b in
+        let st' := mkT (wire st ++ firstn n b) (S (nw st)) (broken st) in
+        match e with
+        | ENone => encode_bufs orc rest st' (written + n)
+                     (match alive with Some (S k) => Some k | _ => None end)
+        | _ => (st', written + n, e)
+        end
       end
   end.
+
+(* state of the send context *)
+Inductive cmode :=
+| CLive                (* not cancelled during this send *)
+| CDone                (* already done when send is called *)
+| CCancel1.            (* cancelled while the first Write of the frame is in progress *)
+
+Definition alive_of (c : cmode) : option nat :=
+  match c with CCancel1 => Some 1 | _ => None end.
 
 Inductive variant := VFound | VUnwrap | VFixed.
 
@@ -74,19 +92,19 @@ Definition sets_broken (v : variant) (written : nat) (e : werr) : bool :=
 
 Inductive sres := SOk | SErr | SNmErr.
 
-(* one NewMessage + send of frame f; ctxdone: the send context is done when send is called *)
-Definition send1 (v : variant) (orc : nat -> wout) (ctxdone : bool) (f : frame) (st : tstate)
+(* one NewMessage + send of frame f under context behaviour c *)
+Definition send1 (v : variant) (orc : nat -> wout) (c : cmode) (f : frame) (st : tstate)
   : tstate * sres :=
   if broken st then (st, SNmErr)
-  else if ctxdone then (st, SErr)
-  else
-    let '(st', w, e) := encode_bufs orc f st 0 in
+  else match c with CDone => (st, SErr) | _ =>
+    let '(st', w, e) := encode_bufs orc f st 0 (alive_of c) in
     match e with
     | ENone => (st', SOk)
     | _ => (mkT (wire st') (nw st') (sets_broken v w e), SErr)
-    end.
+    end
+  end.
 
-Definition op := (bool * frame)%type.
+Definition op := (cmode * frame)%type.
 
 Fixpoint run_from (v : variant) (orc : nat -> wout) (st : tstate) (ops : list op)
   : tstate * list sres :=
